@@ -320,6 +320,25 @@ static res_t do_op(rset_t *r, const char *op, char *args)
 			return mk(ret, 1);
 		return mk(0, fnv(h, buf, n));
 	}
+	if (!strcmp(op, "mcont")) {
+		/* sequential read from wherever the raw meta reader stands, no seek (only meaningful between a copy and its twin: C19) */
+		unsigned long n = strtoul(args, NULL, 0);
+		unsigned char buf[512];
+		while (n > 0) {
+			unsigned long k = n > sizeof(buf) ? sizeof(buf) : n;
+			sqfs_u64 blk = 0;
+			size_t off = 0;
+			ret = sqfs_meta_reader_read(r->mr, buf, k);
+			if (ret)
+				return mk(ret, h);
+			h = fnv(h, buf, k);
+			sqfs_meta_reader_get_position(r->mr, &blk, &off);
+			h = fnv(h, &blk, sizeof(blk));
+			h = fnv(h, &off, sizeof(off));
+			n -= k;
+		}
+		return mk(0, h);
+	}
 	if (!strcmp(op, "xattr")) {
 		sqfs_xattr_t *list = NULL, *it;
 		if (r->xr == NULL)
